@@ -1,5 +1,5 @@
 SPECIFICATION MCSpec
-CONSTANT L = 6
+CONSTANT L = 5
 CONSTANT Kind = "NS"
 CONSTANT LOBound = "asis"
 VIEW View
